@@ -1752,6 +1752,28 @@ else:
         """chunk(Tensor(a -> *) self, int chunks, int dim=0) -> Tensor(a)[]"""
         if chunks == 1:
             return op.Identity(self)
+        dim_size = self.shape[dim]
+        if isinstance(dim_size, int):
+            # torch.chunk: pieces of ceil(dim_size / chunks). It may return fewer than `chunks` pieces
+            # (or `chunks` empty ones for an empty dim), which Split(num_outputs=chunks) rejects.
+            chunk_size = -(-dim_size // chunks)
+            if chunk_size == 0:
+                bounds = [(0, 0)] * chunks
+            else:
+                bounds = [
+                    (start, min(start + chunk_size, dim_size))
+                    for start in range(0, dim_size, chunk_size)
+                ]
+            if len(bounds) != chunks or dim_size == 0:
+                return [
+                    op.Slice(
+                        self,
+                        op.Constant(value_ints=[start]),
+                        op.Constant(value_ints=[end]),
+                        op.Constant(value_ints=[dim]),
+                    )
+                    for start, end in bounds
+                ]
         return op.Split(self, axis=dim, num_outputs=chunks)
 
 
